@@ -33,7 +33,17 @@ claimed = {
    text="300-600 lines per run (grammar-generated with random spacing and parameter order, token/byte-mutated, arbitrary bytes) travel through the real ConsoleUciRx read seam; each parse result is compared with a reference parser (exactly / must-be-error / unspecified); all 64x64x6 move texts round-trip; a panic is observed as what it is in production (the reader dies). One run in eight is a full engine session so that a misread shows by its effect and the session must stay live afterwards.", ref="5/C15", note="LINE"),
  "C16": dict(cat="exploration", tech="EngineSim: two writer threads on one output stream under the lock-step scheduler, multi-cycle sessions with carried state",
    text="Every line either thread writes in every simulated session is parsed by a reference grammar of engine->GUI messages; within each go..bestmove window depth/nodes/time never decrease (time only when no backward clock jump was injected), every PV is legal from the searched position, bestmove/ponder are the first/second move of the last reported PV, no ponder without a PV; sessions carry previous PV, ponder move, killer table and metrics across cycles (with/without ucinewgame, with/without stop, following the engine's own PV).", ref="5/C16", note="ENGINE"),
+ "C10": dict(cat="exploration", tech="EngineSim sessions over seeded game histories (repetitions, clocks 0..150) bounded by a reference search with draw leaves at -/+contempt; seeded hash histories against ZobristHistory",
+   text="Histories generated by the reference with shuffle bias (1-, 2-, 3-fold occurrences broken by pawn moves/captures, FEN starts with half-move clocks 0..150 and arbitrary move numbers) are supplied with position...moves; go depth 1 searchmoves m and go depth 1..3 in materially imbalanced positions; the reported score must lie between the reference values computed with repetition leaves valued -contempt and +contempt (negamax is 1-Lipschitz in its leaves) and no fifty-move draw leaf below clock 100 - so equality whenever no draw leaf is in reach. One run in four drives ZobristHistory::set/count_repetitions directly on seeded hash histories (start indices 0..4990, windows reaching index 0, irreversible-move marks).", ref="5/C10", note="ENGINE"),
+ "C11": dict(cat="exploration", tech="twin engine replicas fed mirrored sessions (EngineSim) + static evaluation of every visited position vs. its colour-flipped twin (BoardSim)",
+   text="Engine A plays a seeded session, engine B the colour-flipped session (FENs flipped, moves mirrored); score lines (cp / mate N) must be identical cycle by cycle whatever history each replica accumulated, with the C08 exactness oracle on for both; in BoardSim runs eval(P) = -eval(flip P) on every visited position incl. mates (mated side negative) and stalemates (draw score).", ref="5/C11", note="ENGINE"),
+ "C17": dict(cat="exploration", tech="seeded fragmentation of the Read seam under PgnRawParser (StreamSim) with model, differential and replay oracles",
+   text="Reference-generated game collections in the Lichess export layout are read through every chunk-size class and seeded read fragmentations (1-byte reads, short reads, shrink-then-grow, random); the iterator must yield exactly the generated games (tags, SAN, comments), equal the single-read result, and replay through pgn_to_bb to the reference final position. Truncated sources and ErrorKind::Interrupted are injected too but only reported (observational).", ref="5/C17", note="STREAM"),
+ "C18": dict(cat="exploration", tech="seeded operation histories on the private HashTable (through a cfg-gated handle) vs. reference FIFO map; TT-capacity knob inside EngineSim searches",
+   text="40k+ histories of put/get/clear/len over capacities 1..16 and tiny key universes (re-insertion of present and of evicted keys is the norm, unique values) compared after every operation with an insertion-ordered reference map: lookups, size <= capacity, FIFO victim, fill level. The EngineSim checks additionally run real searches with TT capacity 1..1024 (hashfull <= 1000 enforced, C08 exactness independent of capacity).", ref="5/C18", note="TABLE"),
 }
+STREAM_NOTE = ("Trusted base: reference model (legal games, canonical SAN), the harness PGN writer (Lichess export layout), FragReader. ASCII tag values/comments without quotes or braces. Only complete inputs carry a verdict.")
+TABLE_NOTE = ("Trusted base: a 30-line reference FIFO map. No schedule exists (the table is owned by the search thread alone); the simulated dimension is the operation history and the cache-size knob.")
 ENGINE_NOTE = ("Trusted base: lock-step scheduler (sim/src/sched.rs), reference chess model, reference UCI grammars (sim/src/uciref.rs). Assumes a protocol-conformant GUI, poll-interval knob >= 512 (keeps 'iteration 1 completes before the first poll' true as with the shipped 100000), and that all cross-thread effects go through the mpsc channel and the UciTx sink. engine_app/src/main.rs is mirrored, not executed; setoption is parsed but not dispatched (todo!() in Engine::accept).")
 LINE_NOTE = ("Trusted base: reference UCI parser sim/src/uciref.rs (written from the UCI text + behaviours pinned by the existing parser tests). Separators are blanks only; grey-area syntax (signs, leading zeros, tabs, upper-case promotion letters) is classified Unspecified: only no panic and no change of command kind is demanded there.")
 NA = {
@@ -51,7 +61,7 @@ for i in ids:
             "replay_cmd_template": "./run replay {path}",
             "engine": "sim",
             "level_claimed": {"category": c["cat"], "text": c["text"], "design_ref": "DESIGN.md section " + c["ref"]},
-            "level_note": {"ENGINE": ENGINE_NOTE, "LINE": LINE_NOTE}.get(c.get("note"), BOARD_NOTE),
+            "level_note": {"ENGINE": ENGINE_NOTE, "LINE": LINE_NOTE, "STREAM": STREAM_NOTE, "TABLE": TABLE_NOTE}.get(c.get("note"), BOARD_NOTE),
             "technique": c["tech"],
         })
 na = [{"property_id": i, "reason": NA.get(i, "check not built yet (work in progress in this session)")} for i in ids if i not in claimed]
@@ -66,7 +76,7 @@ m = {
    "source_commits": [l.split()[0] for l in hooks_commits],
    "add_only": True,
  },
- "engines": [{"name": "sim", "path": "/verif/sim", "serves_properties": sorted(claimed), "kind_free_text": "Rust binary: seeded deterministic simulators (BoardSim, EngineSim, StreamSim, TableSim, LineSim) + independent reference chess model + plan minimiser/replayer"}],
+ "engines": [{"name": "sim", "path": "/verif/sim", "serves_properties": sorted(claimed), "kind_free_text": "Rust binary: seeded deterministic simulators (BoardSim, EngineSim, StreamSim, TableSim/RepSim, LineSim) + independent reference chess model + plan minimiser/replayer"}],
  "checks": checks,
  "not_applicable": na,
  "notes": "exit 0 = held; exit 1 + 'VIOLATION property=<id> replay=<path>'; exit 2 = harness error. VERIF_SEED selects the base seed (default 20260102). Known findings: /verif/known_findings.jsonl.",
